@@ -266,6 +266,10 @@ def run_impl(c):
     if c.get("delete"):
         try:
             db.delete(list(c["delete"]), make_backup=False)
+            # a feature written back in place (add_relation with a child_func that changes nothing) keeps its place in file order
+            left = [r["id"] for r in t["rows"] if r["id"] not in c["delete"]]
+            if len(left) >= 2:
+                db.add_relation(left[-1], left[0], 7, child_func=lambda parent, child: child)
             out2 = answer(c["qs2"])
         except Exception as ex:
             out2 = [["err", L.err_class(ex)] for _ in c["qs2"]]
